@@ -210,7 +210,17 @@ def child_env(extra=None):
     return env
 
 
-def run_shards(prop, tier, seed, nshards, timeout, extra_args=()):
+def start_w0(prop, out):
+    """The repository's own test-suite under the property's intrinsic contracts (workload W0)."""
+    cmd = [PY, "-m", "pytest", os.path.join(REPO, "tests"), "-q", "--no-header", "-p", "no:cacheprovider",
+           "-p", "fmon.pytest_plugin", "--timeout=600"]
+    log = open(out + ".log", "w")
+    env = child_env({"FMON_PROPS": prop, "FMON_OUT": out})
+    env.pop("PYTHONWARNINGS", None)
+    return subprocess.Popen(cmd, env=env, stdout=log, stderr=subprocess.STDOUT, cwd=REPO), log
+
+
+def run_shards(prop, tier, seed, nshards, timeout, extra_args=(), w0=False):
     """Run `check <prop> --shard i/n` in nshards subprocesses (never multiprocessing.Pool).
     Returns (list of result dicts, list of lost shard descriptions)."""
     os.makedirs(WORK, exist_ok=True)
@@ -224,6 +234,12 @@ def run_shards(prop, tier, seed, nshards, timeout, extra_args=()):
         log = open(out + ".log", "w")
         p = subprocess.Popen(cmd, env=child_env(), stdout=log, stderr=subprocess.STDOUT, cwd=VERIF)
         procs.append((i, p, out, log))
+    if w0:
+        out = os.path.join(WORK, f"{prop}-{tier}-{os.getpid()}-w0.json")
+        if os.path.exists(out):
+            os.remove(out)
+        p, log = start_w0(prop, out)
+        procs.append(("w0", p, out, log))
     results, lost = [], []
     deadline = time.time() + timeout
     for i, p, out, log in procs:
